@@ -45,6 +45,8 @@ struct Case {
     /// (thread, round, phase, k); phase g/c/o/i
     faults: Vec<(u64, u64, char, u64)>,
     hang_ms: u64,
+    /// `Action::Test` instead of `Action::Bench` (one round of one call)
+    test: bool,
 }
 
 fn parse_case(line: &str) -> Case {
@@ -60,7 +62,8 @@ fn parse_case(line: &str) -> Case {
         slow: 0,
         skipext: false,
         faults: vec![],
-        hang_ms: 3000,
+        hang_ms: 4000,
+        test: false,
     };
     for tok in line.split(' ') {
         let Some((k, val)) = tok.split_once('=') else { continue };
@@ -78,6 +81,7 @@ fn parse_case(line: &str) -> Case {
             "slow" => c.slow = val.parse().unwrap(),
             "skipext" => c.skipext = val == "1",
             "hang_ms" => c.hang_ms = val.parse().unwrap(),
+            "test" => c.test = val == "1",
             "fault" => {
                 if val != "none" {
                     for f in val.split(',') {
@@ -264,12 +268,13 @@ fn ctx_static() -> Arc<Ctx> {
 fn run_bench(case: &Case) -> v::RunDump {
     let mut options = divan::__private::BenchOptions::default();
     options.sample_count = Some(case.sample_count);
-    options.sample_size = Some(case.n);
+    // under Action::Test the options must be ignored: one call per thread (the case line says n=1)
+    options.sample_size = Some(if case.test { 3 } else { case.n });
     options.skip_ext_time = Some(case.skipext);
     let cfg = v::RunConfig {
         options: &options,
         threads: case.threads,
-        is_test: false,
+        is_test: case.test,
         tsc_frequency: Some(1_000_000_000),
         compute_stats: false,
     };
@@ -385,7 +390,14 @@ fn run(line: &str) -> String {
         let res = std::panic::catch_unwind(std::panic::AssertUnwindSafe(|| run_bench(&c2)));
         let _ = tx.send(res.map_err(|e| hxlib::panic_msg(&e).to_string()));
     });
-    let res = rx.recv_timeout(Duration::from_millis(case.hang_ms));
+    // Watchdog.  After several hangs in this process (only a broken barrier
+    // protocol gets there) later cases are given less time.
+    static HANGS: std::sync::atomic::AtomicU32 = std::sync::atomic::AtomicU32::new(0);
+    let budget = if HANGS.load(std::sync::atomic::Ordering::Relaxed) >= 5 { case.hang_ms.min(800) } else { case.hang_ms };
+    let res = rx.recv_timeout(Duration::from_millis(budget));
+    if res.is_err() {
+        HANGS.fetch_add(1, std::sync::atomic::Ordering::Relaxed);
+    }
     v::log_enable(false);
     let mut log = v::log_take();
     log.sort_by_key(|e| e.seq);
